@@ -340,6 +340,19 @@ impl RuntimeData {
             }
         }
 
+        // variables captured by closures that are still on the stack: the list of open upvalues
+        // is walked when upvalues are registered and closed, its members must stay alive
+        unsafe {
+            let mut upvalue = self.open_upvalues;
+            while let Some(t) = upvalue.as_mut() {
+                upvalue = t.as_upvalue().map(|u| u.next).unwrap_or(std::ptr::null_mut());
+                if matches!(t.marker, GcMarker::White) {
+                    t.marker = GcMarker::Gray;
+                    progress_tracker.push(t);
+                }
+            }
+        }
+
         macro_rules! checked_enqueue_value {
             ($val: ident) => {
                 if let Value::Object(mut value) = $val {
